@@ -52,6 +52,8 @@ def main():
     dem = os.path.join(d, f"m{k}_demo.py")
     meta = json.load(open(os.path.join(d, f"m{k}_meta.json")))
     out = {"seed": f"{os.path.basename(d.rstrip('/'))}-m{k}", "meta": meta, "ran": []}
+    rc, head = sh("git -C /repo rev-parse HEAD")
+    sh(f"git checkout -q --detach {head.strip()}", cwd=wt)  # seeded changes are always evaluated on /repo's current HEAD
     rc, o = sh("git status --porcelain", cwd=wt)
     if o.strip():
         print("worktree dirty:", o)
